@@ -5,7 +5,7 @@ call-by-contract summaries are added automatically (Group.assumes)."""
 
 PROPERTIES = {
     'C04': {
-        'groups': ['SL', 'G2', 'G2e', 'G3', 'G3i', 'Z3'],
+        'groups': ['SL', 'G2', 'G2e', 'G3', 'G3i', 'Z3', 'Z2'],
         'level': 'other',
         'explanation': 'Contracts on AnsiString._slice_val_to_idx (U-mode: unbounded, all integers and text lengths) and '
                        'AnsiString.__getitem__ (B-mode: bounded-symbolic in the number of change points/markers; text '
@@ -40,7 +40,7 @@ PROPERTIES = {
         'assumptions': [],
     },
     'C05': {
-        'groups': ['A1', 'A2', 'A2j', 'A3', 'A3b', 'V5', 'Z4'],
+        'groups': ['A1', 'A2', 'A2j', 'A3', 'A3b', 'V5', 'Z4', 'Z2'],
         'level': 'other',
         'explanation': 'Contract on AnsiString.__iadd__ over two bounded-symbolic operand tables (text concatenated; every character '
                        'keeps the setting texts, in order, of its own operand; invariant kept, i.e. nothing open at the seam; right '
